@@ -9,18 +9,27 @@ INT_TYPES = {   # tag: (C type, max digits)
  'u8': ('unsigned char', 3), 'u16': ('unsigned short', 5), 'u32': ('unsigned int', 10), 'u64': ('unsigned long long', 20),
  'i8': ('signed char', 3), 'i16': ('short', 5), 'i32': ('int', 10), 'i64': ('long long', 20),
 }
+CHARS = ('char', 'char16_t', 'char32_t')
 def int_queries(tier):
     qs = []
     for tag, (ty, md) in INT_TYPES.items():
-        big = tag.endswith('64')
-        if big and tier == 'quick': continue
+        wide = tag[1:] in ('32', '64')
+        signed = tag[0] == 'i'
         pairs = md // 2 + 1
-        for ch in ('char', 'char16_t', 'char32_t'):
+        for ch in CHARS:
             b = {'IntToString': pairs + 1, 'ref_parse': pairs + 1, 'Write': md + 2}
-            ents = ['h_n2s', 'h_n2s_rev'] + ([] if tag[0] == 'i' else ['h_i2s', 'h_i2s_rev'])
-            for e in ents:
-                qs.append(Query('int/%s/%s/%s' % (e[2:], tag, ch), 'C10_int.cpp', e, {'NUM': ty, 'CHAR': ch}, bounds=b,
-                                backend='kissat' if big else 'sat', timeout=1500 if big else 300, mem_gb=8))
+            d = {'NUM': ty, 'CHAR': ch}
+            if not wide:
+                # complete: direct Horner oracle over every value of the type
+                for e in ['h_n2s', 'h_n2s_rev'] + ([] if signed else ['h_i2s', 'h_i2s_rev']):
+                    qs.append(Query('int/%s/%s/%s' % (e[2:], tag, ch), 'C10_int.cpp', e, d, bounds=b, timeout=300, mem_gb=8))
+            else:
+                if not signed:
+                    qs.append(Query('int/base/%s/%s' % (tag, ch), 'C10_int.cpp', 'h_base', d, bounds=b, timeout=300, mem_gb=8))
+                    for e in ('h_step', 'h_step_rev'):
+                        qs.append(Query('int/%s/%s/%s' % (e[2:], tag, ch), 'C10_int.cpp', e, d, bounds=b, backend='cvc5int', timeout=600, mem_gb=8))
+                for e in ('h_wrap', 'h_wrap_rev'):
+                    qs.append(Query('int/%s/%s/%s' % (e[2:], tag, ch), 'C10_int.cpp', e, d, bounds=b, backend='cvc5int', timeout=600, mem_gb=8))
     return qs
 def queries(tier):
     return int_queries(tier)
